@@ -194,11 +194,21 @@ fn types_equal_inner(
         // Check that both type names are present or recurse in case of wrapped types
         match (&a.type_name, &b.type_name) {
             (Some(a_type_name), Some(b_type_name)) if !ty_is_skipped_or_wrapped => {
-                // check that both type names are present in Generic Params and have the same indexes
-                a_params
-                    .index_for_type_name(a_type_name)
-                    .zip(b_params.index_for_type_name(b_type_name))
-                    .is_some_and(|(a, b)| a == b)
+                match (
+                    a_params.index_for_type_name(a_type_name),
+                    b_params.index_for_type_name(b_type_name),
+                ) {
+                    // both fields are written as a generic param: it has to be the same one
+                    (Some(a), Some(b)) => a == b,
+                    // neither field is written as a generic param: these are concrete types whose IDs
+                    // merely coincide with some generic argument (e.g. `x: u8` in `Foo<T, U>` used as
+                    // `Foo<u8, X>` and `Foo<X, u8>`), so compare them as concrete types.
+                    (None, None) => {
+                        let no_generics = GenericsList::empty();
+                        types_equal_recurse(a.ty.id, &no_generics, b.ty.id, &no_generics)
+                    }
+                    _ => false,
+                }
             }
             _ => types_equal_recurse(a.ty.id, a_params, b.ty.id, b_params),
         }
